@@ -6,6 +6,7 @@ import SosModel.Drv.Folder
 import SosModel.Drv.Auth
 import SosModel.Drv.Integrity
 import SosModel.Drv.Crypto
+import SosModel.Drv.Archive
 open Sos
 
 /-- State threaded through a session (stateful domains add fields here). -/
@@ -17,6 +18,7 @@ def stepLine (st : DrvState) (line : String) : DrvState × String :=
   let toks := (line.trimAscii.toString.splitOn " ").filter (· ≠ "")
   match toks with
   | "merkle" :: rest => (st, Sos.Drv.Merkle.step rest)
+  | "archive" :: rest => (st, Sos.Drv.Archive.step rest)
   | "crypto" :: rest => (st, Sos.Drv.Crypto.step rest)
   | "integrity" :: rest => (st, Sos.Drv.Integrity.step rest)
   | "auth" :: rest => (st, Sos.Drv.Auth.step rest)
